@@ -56,10 +56,11 @@ P = {
     "C07": dict(title="JOIN admission", profiles=[("join", 4), ("general", 1)],
                 verbs={"JOIN"}, outs=ident, st=st_kinds({"member", "user", "chan"}), events=False, monitors=["admission"]),
     "C08": dict(title="channel MODE privileges", profiles=[("mode", 4), ("general", 1)],
-                verbs={"MODE"}, channel_target=True, outs=ident, st=st_kinds({"member", "chan", "ban"}), events=False,
+                verbs={"MODE", "JOIN", "PRIVMSG", "NOTICE", "TOPIC", "KICK", "INVITE", "NAMES", "WHO"}, channel_target=True,
+                outs=ident, st=st_kinds({"member", "chan", "ban"}), events=False,
                 monitors=["modepriv"]),
     "C09": dict(title="KICK/TOPIC/INVITE rank", profiles=[("kti", 4), ("general", 1)],
-                verbs={"KICK", "TOPIC", "INVITE"}, outs=ident, st=st_kinds({"member", "chan", "user"}), events=False,
+                verbs={"KICK", "TOPIC", "INVITE", "JOIN", "LIST"}, outs=ident, st=st_kinds({"member", "chan", "user"}), events=False,
                 monitors=["ktirank"]),
     "C10": dict(title="speaking restrictions, NOTICE silent", profiles=[("speak", 4), ("msg", 1)],
                 verbs={"PRIVMSG", "NOTICE"}, outs=ident, st=st_kinds(set()), events=False, monitors=["notice_silent"]),
@@ -102,4 +103,9 @@ for k, v in P.items():
 
 # companion theorem modules (audited together with the main one)
 P["C13"]["extra_modules"] = ["Irc.Props.C13Codec"]
+P["C07"]["fn"] = ["banned"]
+P["C13"]["extra_modules"] = ["Irc.Props.C13Codec", "Irc.Props.Wire"]
+P["C10"]["fn"] = ["banned"]
 P["C05"]["extra_modules"] = ["Irc.InvProofs.Step"]
+P["C06"]["extra_modules"] = ["Irc.InvProofs.Timer"]
+P["C04"]["extra_modules"] = ["Irc.Props.C04Announce"]
